@@ -97,19 +97,29 @@ func genC13(w *bufio.Writer, tier string, rng *rand.Rand) {
 		var ops []string
 		vi := 0
 		nops := nvals + rng.Intn(12)
+		// the multiset an accumulator stands for doubles with every self-combine and grows like
+		// Fibonacci numbers under alternating combines: sizes are kept below maxDen so that the
+		// exact model (which carries the multiset) stays small
+		const maxDen = 3000
+		cnt := make([]int, nacc)
 		for o := 0; o < nops; o++ {
 			r := rng.Float64()
 			switch {
 			case vi < len(xs) && r < 0.8:
 				i := rng.Intn(nacc)
 				ops = append(ops, add(i, xs[vi]))
+				cnt[i]++
 				vi++
 				if rng.Float64() < 0.1 {
 					ops = append(ops, read(i))
 				}
 			case r < 0.97:
 				i, j := rng.Intn(nacc), rng.Intn(nacc)
+				if cnt[i]+cnt[j] > maxDen {
+					continue
+				}
 				ops = append(ops, comb(i, j))
+				cnt[i] += cnt[j]
 				if rng.Float64() < 0.5 {
 					ops = append(ops, read(i))
 				}
@@ -120,8 +130,9 @@ func genC13(w *bufio.Writer, tier string, rng *rand.Rand) {
 		// final merge tree into accumulator 0 in random order, then read all
 		perm := rng.Perm(nacc)
 		for _, j := range perm {
-			if j != 0 && rng.Float64() < 0.7 {
+			if j != 0 && rng.Float64() < 0.7 && cnt[0]+cnt[j] <= 4*maxDen {
 				ops = append(ops, comb(0, j))
+				cnt[0] += cnt[j]
 			}
 		}
 		for i := 0; i < nacc; i++ {
